@@ -113,3 +113,13 @@ Theorem C07_outgoing_integrity_is_own :
          In a (flatten (st_prepare s x)) -> is_integ a = true -> In a (st_tail s) /\ mac_key a = KST 0.
 Proof. exact AgentMech.st_prepare_integrity. Qed.
 Print Assumptions C07_outgoing_integrity_is_own.
+
+(* ---- the property in exactly the form in which the implementation is judged: the spec monitor of this property
+   (Agent/Monitors.v, from the property text; it runs on every observed call of the implementation) accepts EVERY step of
+   EVERY well-formed history of the model (fresh transaction ids, monotone instants, positive RTO), for every configuration
+   and credential mechanism (Proofs/AgentMeets.v: obs_of, run_mon; Proofs/AgentMeets2.v) *)
+From Rustun Require Import Agent.Rto Agent.Model Agent.Monitors Proofs.AgentMeets Proofs.AgentMeets2.
+Theorem C07_model_meets_monitor : forall (cf:config) (m:mech) (mc:mcfg) (cc:ccfg) (ops:list op),
+  consistent mc cf -> consistent_cc cc cf m -> well_formed_history ops -> verdicts_true 7 (run_mon mc cc (init cf m) (mall0 cc) ops).
+Proof. exact AgentMeets2.model_meets_C07. Qed.
+Print Assumptions C07_model_meets_monitor.
